@@ -87,11 +87,14 @@ def open_circuit_impedance(network: Network, node1: str, node2: str, node_index_
         node1, node2 = node2, node1
     network = trf.switch_ground_node(network=network, new_ground=node2)
     Y = nodal_analysis_coefficient_matrix(network, node_mapper=node_index_mapper)
-    Y = np.delete(Y, np.where(~Y.any(axis=0))[0], axis=1)
-    Y = np.delete(Y, np.where(~Y.any(axis=1))[0], axis=0)
-    Z = np.linalg.inv(Y)
     i1 = node_index_mapper(network)[node1]
-    return Z[i1][i1]
+    retained_columns = [i for i, has_element in enumerate(Y.any(axis=0)) if has_element]
+    retained_rows = [i for i, has_element in enumerate(Y.any(axis=1)) if has_element]
+    if i1 not in retained_columns or i1 not in retained_rows:
+        return np.inf
+    Y = Y[retained_rows][:, retained_columns]
+    Z = np.linalg.inv(Y)
+    return Z[retained_columns.index(i1)][retained_rows.index(i1)]
 
 def element_impedance(network: Network, element: str, node_index_mapper: map.NetworkMapper = map.default_node_mapper) -> complex:
     return open_circuit_impedance(
